@@ -212,6 +212,8 @@ def run_history(sim: Sim, fs: SimFS, save_mod) -> None:
         if any(k in vars(out.parsed_args) for k in ("thing", "model_dir")):
             sim.probe("non_json_metadata")
         repeated = name in model
+        import copy
+        pristine = copy.deepcopy(out)  # what the caller computed; savers must store exactly this
         before = fs.read_real(os.path.relpath(str(path), fs.root))
         sim.op("save", name, repeated, list(d.shape))
         fs.begin_op()
@@ -226,7 +228,10 @@ def run_history(sim: Sim, fs: SimFS, save_mod) -> None:
             if after != before:
                 sim.fail("C19.saving_under_an_existing_name_changed_the_file", {**ctx, "name": name})
         else:
-            model[name] = out
+            model[name] = pristine
+        if not (np.array_equal(np.asarray(out.data), np.asarray(pristine.data), equal_nan=True)
+                and np.array_equal(np.asarray(out.actions, dtype=np.float64), np.asarray(pristine.actions, dtype=np.float64), equal_nan=True)):
+            sim.fail("C19.saving_modified_the_callers_matrices", {**ctx, "name": name})
         sim.state(len(model), repeated, d.shape, np.asarray(out.actions).ndim)
         read_back_and_check(sim, save_mod, path, model, {**ctx, "entries": len(model), "last_saved": name})
 
